@@ -23,7 +23,7 @@ theorem same_origin_is_same_place {a b : Lst} (h : sameOrigin a b = true) :
 /-- AUTH CONFINED (API and authenticated storage requests, `DoWithAuth`): along every redirect / 401
     path, for every world, access mode and helper behaviour, a request that carries an Authorization
     value carries one obtained for exactly the place the request goes to. -/
-theorem auth_confined (w : World) (canFill : Bool) (fuel : Nat) (access : Bool) (orig : Req)
+theorem auth_confined (w : World) (canFill : Nat → Bool) (fuel : Nat) (access : Bool) (orig : Req)
     (h0 : orig.auth = none) : ∀ q ∈ runAuth w canFill fuel access orig, Confined w q :=
   runAuth_confined w canFill fuel access orig (by intro l hl; rw [h0] at hl; cases hl)
 
@@ -31,22 +31,22 @@ theorem auth_confined (w : World) (canFill : Bool) (fuel : Nat) (access : Bool) 
     (`Client.Do`): the header never reaches another place. -/
 theorem header_confined (w : World) (orig : Req) (h0 : orig.auth = some orig.lst) :
     ∀ q ∈ runHeader w orig, Confined w q :=
-  chain_confined w false false (maxVia + 1) 0 orig
+  chain_confined w false (fun _ => false) (maxVia + 1) 0 orig
     (by intro l hl; rw [h0] at hl; cases hl; exact sameOrigin_refl _)
 
 /-- consequence in the property's terms: scheme, host and effective port of label and destination agree -/
-theorem auth_confined_effective (w : World) (canFill : Bool) (fuel : Nat) (access : Bool) (orig : Req)
+theorem auth_confined_effective (w : World) (canFill : Nat → Bool) (fuel : Nat) (access : Bool) (orig : Req)
     (h0 : orig.auth = none) (q : Req) (hq : q ∈ runAuth w canFill fuel access orig) (l : Nat) (hl : q.auth = some l) :
     (w.lst l).scheme = (w.lst q.lst).scheme ∧ (w.lst l).name = (w.lst q.lst).name ∧
     (w.lst l).effPort = (w.lst q.lst).effPort :=
   sameOrigin_effective (auth_confined w canFill fuel access orig h0 q hq l hl)
 
 /-- redirects from https to http are refused: no chain contains such a hop -/
-theorem no_https_to_http (w : World) (access canFill : Bool) (fuel via : Nat) (r : Req) :
+theorem no_https_to_http (w : World) (access : Bool) (canFill : Nat → Bool) (fuel via : Nat) (r : Req) :
     NoDowngrade w (chain w access canFill fuel via r).1 := chain_noDowngrade w access canFill fuel via r
 
 /-- redirect chains are cut off: one chain never has more than `redirectLimit` requests -/
-theorem hops_bounded (w : World) (access canFill : Bool) (fuel : Nat) (r : Req) :
+theorem hops_bounded (w : World) (access : Bool) (canFill : Nat → Bool) (fuel : Nat) (r : Req) :
     (chain w access canFill fuel 0 r).1.length ≤ Gen.redirectLimit := by
   have := chain_length w access canFill fuel 0 r (by decide)
   rw [gen_redirect_limit]; omega
@@ -61,7 +61,7 @@ theorem d26_http_to_https_keeps_header :
 /-- non-vacuity: a world with a cross-host redirect behind a 401; the trace shows the value obtained
     for listener 0 going only to listener 0 and a fresh one for listener 1 going to listener 1 -/
 example : runAuth { lsts := [⟨.http, 1, some 8080⟩, ⟨.https, 2, none⟩],
-                    nodes := [⟨0, .needauth, 1, .abs, true⟩, ⟨1, .final, 0, .abs, false⟩] } true 4 false ⟨0, 0, none⟩
-    = [⟨0, 0, none⟩, ⟨0, 0, some 0⟩, ⟨1, 1, some 1⟩] := by decide
+                    nodes := [⟨0, .needauth, 1, .abs, true⟩, ⟨1, .final, 0, .abs, false⟩] } (fun _ => true) 4 false ⟨0, 0, none, false⟩
+    = [⟨0, 0, none, false⟩, ⟨0, 0, some 0, false⟩, ⟨1, 1, some 1, false⟩] := by decide
 
 end C10
